@@ -32,6 +32,7 @@ func init() {
 			{ID: "C20-R6", Title: "error renderers index and slice only under a length test (shared with C03-R6)", Floor: 5, Run: formatterBounds},
 			{ID: "C20-R10", Title: "the lexer's cursor fields move together", Floor: 1, Run: cursorFieldsMoveTogether},
 			{ID: "C20-R11", Title: "every spelling of a line break is lexed under the same conditions", Floor: 1, Run: lineEndingsTreatedAlike},
+			{ID: "C20-R12", Title: "runs of line breaks are stepped over by loops", Floor: 1, Run: newlineRunsSkippedByLoops},
 		},
 	})
 }
